@@ -1,7 +1,7 @@
 SPECIFICATION Spec
 CONSTANTS
   Chunks = 2
-  MaxVer = 3
+  MaxVer = 4
   Deviation = "stat_follows_symlink"
 INVARIANTS Inv_RefuseUnsafePath
 PROPERTIES Act_ReloadEqualsLastSave
